@@ -718,7 +718,7 @@ pub fn c06(o: &Opts, t: &mut Tracer) -> Value {
                                 let v = [u64::MAX, u64::MAX - 1, 1u64 << 63, 9999999999999999999][pick];
                                 (v.to_string(), v)
                             }
-                            "nonnum" => ([["abc", "12a", "-1", "1.5"], ["5, 5", "5,5", "0, 0", "7 7"], ["5;5", "0x10", "1e3", "12,"]][(status as usize / 3 + mi + ti) % 3][pick].to_string(), 0),
+                            "nonnum" => ([["abc", "12a", "-1", "1.5"], ["5, 5", "5,5", "0, 0", "7 7"], ["5;5", "0x10", "1e3", "12,"], ["", " ", "\t", "- 5"]][(status as usize / 3 + mi + ti) % 4][pick].to_string(), 0),
                             _ => (String::new(), 0),
                         };
                         let te_text = match *te {
@@ -761,6 +761,15 @@ pub fn c06(o: &Opts, t: &mut Tracer) -> Value {
                                            "res":"none","next":"none","mode":"","moden":limbs(0),"closedelim":false,"interim_ok":true});
                         cells += 1;
                         if api == "flow" {
+                            if status == 100 && (ci + ti) % 2 == 0 && *cl != "nonnum" {
+                                // an unsolicited 100 handed to the caller, then a redirect on the same receiver: what the flow
+                                // noted for the interim response must not stand in for the final one
+                                let mut f2 = crate::fx::flow_recv_response_v(method, closing % 4);
+                                if let Some(Ok((_, Some(_)))) = guarded(|| f2.try_response(b"HTTP/1.1 100 Continue\r\n\r\n")) {
+                                    extra_cell(t, f2, method, [302u16, 307, 301][(mi + ti) % 3], "zero", 0, "absent", format!("HTTP/1.1 {} Moved\r\nLocation: /next\r\nContent-Length: 0\r\n\r\n", [302u16, 307, 301][(mi + ti) % 3]).as_bytes());
+                                    t.class("cell:redirect-after-unsolicited-100");
+                                }
+                            }
                             let mut f = crate::fx::flow_recv_response_v(method, closing % 4);
                             match guarded(|| f.try_response(head.as_bytes())) {
                                 None => {
